@@ -260,14 +260,18 @@ def run(report, p):
                 deps = [(tt, l) for tt, l in gd.control_deps(gd.node_for(call), through_loops=False) if tt.kind == "test"]  # conditions of the same walk iteration
                 extra = []
                 seen_root, seen_in = False, False
+                from .common import atomic_deps as _ad
+
                 for tt, l in deps:
-                    s2 = norm(tt.ast).replace(" ", "")
-                    if isinstance(tt.ast, ast.Compare) and isinstance(tt.ast.ops[0], ast.NotEq) and l == "T" and "root" in s2:
-                        seen_root = True
-                    elif isinstance(tt.ast, ast.Compare) and isinstance(tt.ast.ops[0], ast.In) and l == "T" and "ascmhl_folder_name" in s2:
-                        seen_in = True
-                    else:
-                        extra.append((norm(tt.ast), l))
+                    for ctxt, cl in _ad(tt.ast, l):
+                        s2 = ctxt.replace(" ", "")
+                        # canonical polarity: `a != b` T  ==  (`a == b`, F);  `x not in y` F == (`x in y`, T)
+                        if "==" in s2 and cl == "F" and "root" in s2:
+                            seen_root = True
+                        elif s2.startswith("ascmhl_folder_namein") and cl == "T":
+                            seen_in = True
+                        else:
+                            extra.append((ctxt, cl))
                 r7.check(seen_root and seen_in and not extra, df, call, f"a nested history is loaded (and thereby verified) only under the additional condition {extra}: a nested ascmhl folder that fails it is silently treated as ordinary content", construct=f"child load under extra condition {extra}")
                 a0 = call.args[0] if call.args else None
                 r7.check(a0 is not None and all(o[0] == "elem" and is_call(o[1], "os.walk") for o in pr.origins(a0, df)) or (a0 is not None and any(o[0] == "elem" for o in pr.origins(a0, df))), df, call, "the nested history is not loaded from the directory that contains the ascmhl folder")
